@@ -16,7 +16,7 @@ ASSUMPTIONS = [
     "a cycle object solved a second time (after a solve with the default internal exchanger / with another lift) must equal a fresh object",
     "request histories: every sequence of <=3 requests from {condenser, evaporator, both} after solve (39 orders) against the same request on a freshly solved cycle",
 ]
-QUICK_FLUIDS = ["water", "ammonia", "R134a", "R600a", "R290", "R1234yf", "R245fa", "CO2"]
+QUICK_FLUIDS = ["water", "ammonia", "R134a", "R600a", "R290", "R1234yf", "R245fa", "CO2", "R407C"]    # the last one: a blend with a temperature glide
 PSEUDO_PURE = {"Air", "R404A", "R410A", "R407C", "R507A", "SES36"}   # CoolProp's pseudo-pure surrogates of blends
 REQS = [("cond", dict(include_cond=True)), ("evap", dict(include_evap=True)), ("both", dict(include_cond=True, include_evap=True))]
 
@@ -213,13 +213,69 @@ def cycle_run(case, res: Result):
     res.add_case(case, hp.work > 0, outcome=[round(hp.COP_h, 6), round(hp.Q_evap, 6)], transitions=1 + 3 + n_hist)
 
 
+# ---------------------------------------------------------------- the fluid handed over as a state instead of by name
+HANDOVER_POINTS = [(0.0, 40.0, 0.0, 0.0), (0.0, 40.0, 5.0, 5.0), (20.0, 40.0, 5.0, 0.0)]
+
+
+def handover_cases(tier, inst):
+    fl = [f for f in QUICK_FLUIDS if f not in ("water", "CO2", "R407C")]  # pure fluids for which all three operating points lie inside the dome
+    for a in fl:
+        for b in fl:
+            if a != b:
+                for pi in range(len(HANDOVER_POINTS)):
+                    for form in ("name", "state-object"):
+                        yield {"first": a, "second": b, "point": pi, "form": form}
+
+
+def handover_run(case, res: Result):
+    """Two cycles in ONE process, each given its fluid through the `state` property (a name or a CoolProp state object) and solved with
+    refrigerant=None at the same temperatures; the second must equal a cycle solved by name in the usual way, and its pressures the
+    saturation pressures of ITS fluid."""
+    import CoolProp.CoolProp as CP
+    from OpenPinch.classes.simple_heat_pump import SimpleHeatPumpCycle
+
+    Te, Tc, sh, sc = HANDOVER_POINTS[case["point"]]
+    kw = dict(dT_sh=sh, dT_sc=sc, eta_comp=0.7, ihx_gas_dt=0.0, Q_h_total=1.0)
+
+    def handed(fluid):
+        c = SimpleHeatPumpCycle()
+        c.state = fluid if case["form"] == "name" else CP.AbstractState("HEOS", fluid)
+        c.solve(Te, Tc, refrigerant=None, **kw)
+        return c
+
+    try:
+        handed(case["first"])
+        got = handed(case["second"])
+        ref = SimpleHeatPumpCycle()
+        ref.solve(Te, Tc, refrigerant=case["second"], **kw)
+    except Exception as exc:
+        res.stats["not_solved:" + type(exc).__name__] += 1
+        res.add_case(case, False, outcome="not-solved")
+        return
+    res.add_case(case, True, outcome=[round(x, 3) for x in got.Ps], transitions=3)
+    tag = case["form"]
+    if any(abs(a - b) > 1e-9 * abs(b) for a, b in zip(got.Ps + got.Hs, ref.Ps + ref.Hs)):
+        res.violate("handed_over_fluid_ne_named_fluid", case, {"P": got.Ps, "P_by_name": ref.Ps, "H": got.Hs, "H_by_name": ref.Hs}, "handover:cycle_ne_by_name:" + tag)
+    for T, p in ((Te, got.Ps[0]), (Tc, got.Ps[1])):
+        psat = CP.PropsSI("P", "T", T + 273.15, "Q", 1 if T == Te else 0, case["second"])
+        if abs(p - psat) > 1e-6 * psat:
+            res.violate("pressure_ne_saturation_pressure", case, {"T": T, "p": p, "p_sat": psat}, "handover:pressure_ne_saturation:" + tag)
+
+
 SUBCHECKS = {
+    "handover": SubCheck(
+        name="handover",
+        describe="two cycles in one process whose fluids are handed over through the `state` property (name or CoolProp state object) and solved with refrigerant=None",
+        rule="case = (first fluid, second fluid, operating point, form of the hand-over); non-trivial = both solve; outcomes = distinct pressure sets",
+        cases=handover_cases, run=handover_run,
+        bound=lambda t: "all ordered pairs of 6 pure refrigerants x 3 operating points x 2 forms",
+    ),
     "cycles": SubCheck(
         name="cycles",
         describe="SimpleHeatPumpCycle.solve on an operating-point lattice per refrigerant; laws checked on the state points; stream sets for every request order",
         rule="case = (refrigerant, Te, Tc, superheat, subcooling, efficiency, duty); non-trivial = the point solves with positive work; "
              "transitions count solve calls plus every build_stream_collection call of the 39 request orders",
         cases=points, run=cycle_run,
-        bound=lambda t: "8 refrigerants, request histories on the duty-1 sub-lattice" if t == "quick" else "every CoolProp pure fluid with a two-phase range > 40 K",
+        bound=lambda t: "9 refrigerants (one a blend with a glide), request histories on the duty-1 sub-lattice" if t == "quick" else "every CoolProp pure fluid with a two-phase range > 40 K",
     ),
 }
